@@ -34,9 +34,12 @@ CLAIMED = {
              "row, every term refers to existing atoms) is preserved by deletion (any NoDup index list) and by extension (default or explicit "
              "offsets, any identity map into existing atoms), hence by every history of such operations (induction over the operation list); "
              "type ids keep their meaning through extend_types (old ids resolve to old text, new ids to the other structure's text, also after "
-             "a kind was emptied). Replication, pop, subset, copy and the LAMMPS writability clause rest on the correspondence "
+             "a kind was emptied). 'Every type id in use has its type-level data' is the invariant Typed, preserved by delete, extend, replicate "
+             "and subset; C09_full_history: WF and Typed hold after ANY history of delete / pop / extend / replicate / subset / copy whose steps "
+             "meet their preconditions (a concrete six-step history shows they can be met); C09_replace: the replacement model keeps both for any "
+             "selection of well-formed matches. The LAMMPS writability clause and the tie of the model to the code rest on the correspondence "
              "(model = implementation after every step of bounded-exhaustive and random histories) and on the invariant evaluated through "
-             "ghost ids on the implementation's own states; replace histories are covered under C04-C08.",
+             "ghost ids on the implementation's own states.",
         design_ref="DESIGN.md section 5, C09",
         technique="Coq proof (invariant preserved by each operation, induction over histories) with model/implementation correspondence after every step of generated operation histories",
         note=NOTE_COMMON + " Clauses resting on correspondence only: replicate/pop/subset preservation of WF, LAMMPS writability."),
@@ -54,7 +57,8 @@ CLAIMED = {
         text="Theorems (any cell shape, any factors): replicate yields, per multiplier triple (each 0<=i<a,0<=j<b,0<=k<c exactly once, NoDup), "
              "the original atoms translated by i*A+j*B+k*C with identical type/charge/group; type tables unchanged; new cell rows a*A,b*B,c*C; "
              "the set of positions modulo the new lattice equals that modulo the old lattice (infinite crystal unchanged); 1x1x1 is the "
-             "identity; shifted copies of terms never supersede existing ones. The per-image copy of terms with types and the purity of "
+             "identity; every bond, angle, dihedral and improper is copied into every image with its type (C12_terms_copied_per_image: tuples "
+             "shifted by image number x N, types repeated, coefficient tables unchanged). Extra term columns per image and the purity of "
              "the original object rest on the correspondence and on the property evaluated directly on the implementation's output.",
         design_ref="DESIGN.md section 5, C12",
         technique="Coq proof (fold over multiplier triples; integer lattice arithmetic by ring/div-mod) with model/implementation correspondence on grid coordinates",
@@ -63,17 +67,21 @@ CLAIMED = {
         text="Theorem C01_sound (all structures, patterns, tolerances, hints, and EVERY quaternion construction and random choice): each "
              "reported match lists one stored atom per pattern atom with the pattern's element, at stored position + one of the 27 lattice "
              "offsets, with a non-zero quaternion whose rotation (orthogonal and orientation-preserving for any non-zero quaternion, by ring "
-             "identities) carries the pattern onto the returned positions within the np.allclose bound. Distinctness of the atoms and the "
-             "agreement of the float acceptance test with the exact one are checked on every returned match in exact integer arithmetic "
-             "inside Coq; the set of matched groups is compared with the model's.",
+             "identities) carries the pattern onto the returned positions within the np.allclose bound. Theorem C01_distinct: on the property's domain "
+             "(given as the computable test domain_b: pattern atoms farther apart than the tolerance, short lattice vectors longer than the pattern "
+             "diameter plus the tolerance) no match lists an atom twice; an example shows the domain is needed. The agreement of the float "
+             "acceptance test with the exact one is checked on every returned match in exact integer arithmetic inside Coq; the set of matched "
+             "groups is compared with the model's; every fifth case runs on an Atoms object that was searched before in another state.",
         design_ref="DESIGN.md section 5, C01",
         technique="Coq proof (soundness of the search model for all rot/pick parameters; rotation identities by ring) with exact re-checking of every returned match and model/implementation correspondence on planted problems",
-        note=NOTE_COMMON + " Clause checked per output rather than proved: the listed atoms are distinct (needs a separation hypothesis on the pattern)."),
+        note=NOTE_COMMON),
     "C02": dict(
         text="Theorems (all inputs, all rot/pick): no atom group is reported twice (keys of the first-seen grouping are NoDup and every "
              "ordering in a group has the group's key); the reported groups are exactly the candidate groups with an accepted ordering; "
-             "nothing outside the tolerance is reported (C01_sound). Completeness (every planted copy is found) is PARTIAL: it depends on "
-             "the floating-point quaternion construction, a parameter of the model, and is validated on every run against planted ground "
+             "nothing outside the tolerance is reported (C01_sound); the candidate enumeration is complete (C02_candidates_complete: every tuple "
+             "that passes the element / pair-distance screen is a candidate) and every candidate accepted by the rotation check has its group "
+             "reported (C02_accepted_candidates_are_reported). Completeness (every planted copy is found) remains PARTIAL in one point: that the "
+             "floating-point quaternion construction, a parameter of the model, hands the check an acceptable rotation; that is validated on every run against planted ground "
              "truth (copies across faces, edges, all eight corners, axis-aligned and exactly antiparallel poses, both tilt signs) for both "
              "the implementation and the model's integer construction.",
         design_ref="DESIGN.md section 5, C02",
@@ -93,7 +101,8 @@ CLAIMED = {
         text="Theorems: the model's output is exactly the pairs i<j whose atoms are bonded (C17_spec); for atoms inside the cell and a cutoff "
              "below every perpendicular width, 'some lattice translate is within the cutoff' <-> 'one of the 27 neighbour translates is' "
              "(Cramer + Cauchy-Schwarz via Lagrange's identity, for any cell shape); the minimum-image criterion is invariant under a common "
-             "shift and per-atom lattice translations; every cutoff of the regenerated table is bounded (reflection on the current table). "
+             "shift and per-atom lattice translations; the reported list is strictly increasing lexicographically, hence each pair once "
+             "(C17_each_pair_once_in_order); every cutoff of the regenerated table is bounded (reflection on the current table). "
              "Tied to the code by element pairs either side of the cutoff directly and through face/edge/corner images, in tight strongly "
              "skewed cells, with the statement also evaluated over 125 images on the implementation's output.",
         design_ref="DESIGN.md section 5, C17",
@@ -104,7 +113,8 @@ CLAIMED = {
              "matches, deletes exactly the union of the matched atoms not common to both patterns (each once), and positions / charges / groups "
              "are the original arrays followed by the not-common replacement atoms per match in order, minus the deleted ones; type tables "
              "are the originals followed by the pattern's; an empty replacement deletes exactly the matched atoms; atoms common to both patterns "
-             "stay (self-replacement changes no position, charge or group). The selection itself (nearest-integer fraction, only found "
+             "stay (self-replacement changes no position, charge or group); with M pairwise disjoint matches the atom count changes by exactly "
+             "M x (replacement atoms - search atoms) (C04_count). The selection itself (nearest-integer fraction, only found "
              "matches), element/label/mass retention of bystanders and 'inputs unmodified' are evaluated on every run on the implementation's "
              "output; the full result state is compared with the model.",
         design_ref="DESIGN.md section 5, C04",
@@ -115,7 +125,9 @@ CLAIMED = {
              "certified by C01 by exactly the residual of the first matched atom, which C01 bounds by the tolerance; the rotation is linear and "
              "proper (ring identities). On every run, for every inserted atom, the implementation's coordinate is compared in exact integer "
              "arithmetic with the exact placement modulo the lattice (1.9e-6 A), the matched atoms are re-checked against the returned rotation, "
-             "and the atom must lie inside the cell (orthorhombic, triclinic of either tilt sign, upper-triangular, rotated). Joint rigid "
+             "and the atom must lie inside the cell (orthorhombic, triclinic of either tilt sign, upper-triangular, rotated, monoclinic, exactly "
+             "rotated orthorhombic); C05_wrap_inside / C05_inside_and_same_site_is_wrap prove that the point inside the cell congruent to a given "
+             "point exists and is unique, so this per-run check determines the coordinate. Joint rigid "
              "motion of both patterns is validated per run for patterns with a unique pose (partial).",
         design_ref="DESIGN.md section 5, C05",
         technique="Coq proof (ring identities for the placement frame) plus exact per-atom placement/wrapping check of the implementation's output inside Coq",
@@ -151,9 +163,11 @@ CLAIMED = {
         text="Theorems: typekey gives two sequences the same key exactly when they agree up to reversal (lexicographic order proved total and "
              "antisymmetric); the pair enumeration used per node yields every unordered pair of distinct (deduplicated) neighbours in exactly one "
              "orientation exactly once; two terms receive the same type id exactly when their keys are equal, and the unique-key entry at a "
-             "term's id is its own key. PARTIAL: graph-level completeness of angles/dihedrals (every chain exactly once, independent of bond "
-             "order/direction/duplication) is settled by exhaustive correspondence over all triangle-free graphs on <= 4 (thorough <= 5) atoms "
-             "plus random larger graphs, against the model and brute force; coefficients-per-term invariance under renaming, exclusion sets, "
+             "term's id is its own key. Graph level, for EVERY bond list (duplicates, both directions, self-loops): the angles produced are exactly "
+             "the pairs of bonds sharing an atom, each in exactly one direction, none twice; every bond serves as central bond in one direction; "
+             "the dihedrals produced are exactly the chains i-j-k-l with i<>k, l<>j, each in exactly one direction, none twice (C19_angles_* / "
+             "C19_dihedrals_*). The model's node/neighbour order is tied to networkx by exhaustive correspondence over all triangle-free graphs "
+             "on <= 4 (thorough <= 5) atoms plus random larger graphs, against the model and brute force; coefficients-per-term invariance under renaming, exclusion sets, "
              "dropped undefined torsions and retyping tables are evaluated on every run.",
         design_ref="DESIGN.md section 5, C19",
         technique="Coq proof (order/typekey, pair enumeration, type assignment) with exhaustive small-graph model/implementation correspondence",
